@@ -82,6 +82,8 @@ func f4Vals() []float64 {
 		f(math.Float32frombits(0x3F800001)), // 1.00000012
 		f(math.Float32frombits(0x4B800001)), // 16777218
 		f(1.0 / 3),
+		f(math.Float32frombits(0x447A0001)), // 1000.00006: 8 significant digits collide with its neighbour
+		f(math.Float32frombits(0x3A83126F)), // 0.00100000005
 		f(math.Float32frombits(0x7FC00001)), // NaN with payload
 	}
 }
